@@ -116,19 +116,43 @@ pub fn run(args: &Args) {
     std::process::exit(3);
   }
   let all = mk_linter(rules_by_codes(&all_codes()), &Words::default());
+  // stratify the corpus by rule: for every rule the snippets on which that rule (alone) reports something
+  let mut by_rule: std::collections::BTreeMap<String, Vec<usize>> = Default::default();
+  {
+    let mut linters: std::collections::BTreeMap<String, Linter> = Default::default();
+    for (i, sn) in corpus.iter().enumerate() {
+      if !all_codes().contains(&sn.rule) {
+        continue;
+      }
+      let l = linters.entry(sn.rule.clone()).or_insert_with(|| mk_linter(rules_by_codes(&[sn.rule.clone()]), &Words::default()));
+      let ext = if sn.rule.starts_with("jsx") || sn.rule.starts_with("react") || sn.src.contains("</") || sn.src.contains("/>") { "tsx" } else { "ts" };
+      if let Outcome::Ok(d) = lint(l, &sn.src, ext) {
+        if !d.is_empty() {
+          by_rule.entry(sn.rule.clone()).or_default().push(i);
+        }
+      }
+    }
+  }
+  let strata: Vec<&Vec<usize>> = by_rule.values().collect();
+  out.add("rules-with-triggering-snippets", strata.len() as u64);
   let replay: Option<Value> = args.opts.get("replay").and_then(|p| std::fs::read_to_string(p).ok()).and_then(|s| serde_json::from_str(&s).ok());
   for case_no in 0..args.count {
     let mut crng = rng.fork();
     // the first third of the budget walks the corpus in a seed-dependent stride; the rest recombines
     let (rule, src) = if let Some(r) = &replay {
       (r["failing_input"]["rule"].as_str().unwrap_or("").to_string(), r["failing_input"]["src"].as_str().unwrap_or("").to_string())
-    } else if case_no < args.count / 3 {
+    } else if case_no < args.count / 2 && !strata.is_empty() {
+      // round-robin over the rules, a seed-dependent triggering snippet of each
+      let st = strata[case_no % strata.len()];
+      let s = &corpus[st[(case_no / strata.len() + args.seed as usize) % st.len()]];
+      (s.rule.clone(), s.src.clone())
+    } else if case_no < args.count * 2 / 3 {
       let s = &corpus[(case_no * 7919 + (args.seed as usize)) % corpus.len()];
       (s.rule.clone(), s.src.clone())
     } else {
       gen_program(&mut crng, &corpus)
     };
-    out.count(if case_no < args.count / 3 { "kind=corpus" } else { "kind=recombined" });
+    out.count(if case_no < args.count / 2 { "kind=corpus-stratified" } else if case_no < args.count * 2 / 3 { "kind=corpus" } else { "kind=recombined" });
     let exts: &[&str] = if rule.starts_with("jsx") || rule.starts_with("react") || rule.contains("fresh") || src.contains("</") || src.contains("/>") { &["tsx", "jsx", "ts"] } else { &["ts", "tsx", "js"] };
     let mut base: Option<(ParsedSource, Vec<LintDiagnostic>)> = None;
     let mut ext = "ts";
@@ -296,10 +320,9 @@ pub fn run(args: &Args) {
     }
 
     if want("C04") {
-      let mut codes: Vec<String> = ds.iter().map(|d| d.code.clone()).collect();
-      codes.push(rule.clone());
-      codes.sort();
-      codes.dedup();
+      // every rule is run alone on this program (not only those that reported in the all-rules run: a rule
+      // silenced by another one would otherwise never be looked at)
+      let codes: Vec<String> = all_codes();
       let enabled = all_codes();
       for d in &ds {
         if !enabled.contains(&d.code) {
@@ -325,7 +348,10 @@ pub fn run(args: &Args) {
           Outcome::Panic(m) => out.found("C01", &format!("panic:{}", code), &src, json!({"meta": meta, "panic": m})),
           _ => {}
         }
-        // a random superset in a random supplied order
+        // a random superset in a random supplied order (for the rules that say something here)
+        if proj.is_empty() && !crng.chance(1, 10) {
+          continue;
+        }
         let mut sup: Vec<String> = vec![code.clone()];
         for c in &enabled {
           if *c != code && crng.chance(1, 6) {
